@@ -11,6 +11,13 @@ from .enc import NONE_I
 KF_PATH = os.path.join(VERIF, 'known_findings.json')
 
 
+def load_all():
+    if not os.path.exists(KF_PATH):
+        return []
+    with open(KF_PATH) as f:
+        return json.load(f).get('findings', [])
+
+
 def load_known():
     if not os.path.exists(KF_PATH):
         return []
